@@ -10,8 +10,8 @@ Streams
                            (DFXP x3, SAMI) / the same document (WebVTT, SRT, MicroDVD).
   B  spec-parser validation: the Coq strict XML content parser against lxml on every payload and on mutated
      (mostly ill-formed) payloads - both must accept/reject together and build the same tree.
-  C  string level: xml escape and WebVTT encode of single strings (exhaustive short strings over the
-     metacharacters + random), model == implementation, and the reference parsers give the string back.
+  C  single strings (every visible string of length <= 4/5 over the metacharacters + random lines), each as a
+     one-line caption, 40 per caption set, through the public writers; judged exactly like stream A.
 """
 import itertools
 import re
@@ -43,6 +43,10 @@ def excluded(spec, fmt):
     if fmt == "MicroDVD":
         if any(n[0] == "t" and "|" in n[1] for n in spec):
             return "mdvd_pipe_in_text"
+    if fmt in ("SAMI", "DFXP-legacy", "SRT") and G.has_inner_word_boundary(spec):
+        # these writers put a space after every text node; a node boundary inside a word is outside the
+        # comparison fixed by DESIGN 7.0 iv (counted, see design/C03.md)
+        return "inner_word_boundary_space_writers"
     return None
 
 
@@ -65,7 +69,7 @@ def run_sets(ctx, res, nsets):
     for k in range(nsets):
         ncap = rng.randint(1, 4)
         adv = rng.choice([0.2, 0.5, 0.8])
-        base = [G.rand_caption_nodes(rng, adversarial=adv, styles=rng.choice([0.0, 0.3, 0.6])) for _ in range(ncap)]
+        base = [G.rand_caption_nodes(rng, adversarial=adv, styles=rng.choice([0.0, 0.3, 0.6]), intra=0.12) for _ in range(ncap)]
         for (fmt, W, kind, mreq) in WRITERS:
             specs = []
             for s in base:
@@ -79,6 +83,10 @@ def run_sets(ctx, res, nsets):
             cs = G.capset(specs)
             out = impl.call(lambda: W().write(cs))
             cases.append((fmt, kind, mreq, specs, out))
+    return process_cases(ctx, res, cases)
+
+
+def process_cases(ctx, res, cases):
     # requests to the oracle: authored lines, model outputs, coq observers
     reqs = []
     for (fmt, kind, mreq, specs, out) in cases:
@@ -139,7 +147,7 @@ def run_sets(ctx, res, nsets):
     inexact = []
     shrunk = set()
     for rec in records:
-        res["evaluations"] += 1
+        res["evaluations"] += len(rec["specs"])
         fmt = rec["fmt"]
         res["distribution"]["docs_" + fmt] = res["distribution"].get("docs_" + fmt, 0) + 1
         res["distribution"]["captions"] = res["distribution"].get("captions", 0) + len(rec["specs"])
@@ -411,36 +419,33 @@ def run_xml_validation(ctx, res, payloads, n_mut):
     res["distribution"]["B_rejected"] = rej
 
 
-# ---- stream C: single strings -----------------------------------------------------------------------------
+# ---- stream C: single strings, through the public API ----------------------------------------------------
 def run_strings(ctx, res, maxlen, nrand):
-    from xml.sax.saxutils import escape
+    """every string of length <= maxlen over the metacharacters (visible ones) + random lines, each as a
+    one-line caption, 40 captions per set, through every writer; judged exactly like stream A"""
     syms = ["&", "<", ">", "-", "a", ";", "]", "#", " "]
-    strings = [""]
+    strings = []
     for L in range(1, maxlen + 1):
         strings.extend("".join(t) for t in itertools.product(syms, repeat=L))
+    strings = [s for s in strings if s.strip()]
     for _ in range(nrand):
         strings.append(G.rand_line(ctx.rng, adversarial=0.8))
     res["distribution"]["C_strings"] = len(strings)
-    w = WebVTTWriter()
-    xe = oracle_batch([(300, s) for s in strings])
-    ve = oracle_batch([(306, s) for s in strings])
-    impl_x = [escape(s) for s in strings]
-    impl_v = [w._encode_illegal_characters(s) for s in strings]
-    back_x = oracle_batch([(310, s) for s in impl_x])
-    back_v = oracle_batch([(314, s) for s in impl_v])
-    for s, mx, mv, ix, iv, bx, bv in zip(strings, xe, ve, impl_x, impl_v, back_x, back_v):
-        res["evaluations"] += 1
-        if s:
-            res["nontrivial"].add(("str", s))
-        exp_tree = [] if s == "" else [[0, s]]
-        if bx == [] or norm_tree(bx[0]) != exp_tree:
-            res["violations"].append({"kind": "xml-escape", "fmt": "xml", "what": f"strict XML parse of escape({s!r}) = {ix!r} is not the text",
-                                      "input": s, "replay": "string", "shape": "string"})
-        elif bv != s or "-->" in iv:
-            res["violations"].append({"kind": "vtt-encode", "fmt": "WebVTT", "what": f"WebVTT cue-text reading of encode({s!r}) = {iv!r} gives {bv!r}",
-                                      "input": s, "replay": "string", "shape": "string"})
-        elif mx != ix or mv != iv:
-            res["disagreements"].append({"what": "escape/encode model differs", "input": s, "impl": [ix, iv], "model": [mx, mv]})
+    cases = []
+    for k in range(0, len(strings), 40):
+        chunk = strings[k:k + 40]
+        for (fmt, W, kind, mreq) in WRITERS:
+            if fmt in ("DFXP-legacy", "DFXP-single"):
+                continue
+            specs = [[("t", s)] for s in chunk if not excluded([("t", s)], fmt)]
+            if not specs:
+                continue
+            cs = G.capset(specs)
+            out = impl.call(lambda: W().write(cs))
+            cases.append((fmt, kind, mreq, specs, out))
+    process_cases(ctx, res, cases)
+    # the string-level models (private helpers are NOT called; this is model-side only): the theorems' functions
+    # agree with what the documents above contain is already checked by the correspondence in process_cases.
 
 
 def run(ctx):
@@ -479,13 +484,4 @@ def replay(ctx, rec):
         specs = [[tuple(n) for n in s] for s in rec["input"]]
         ok, detail = check_one(rec["fmt"], specs)
         return (not ok), detail
-    if rec.get("replay") == "string":
-        r = {"evaluations": 0, "nontrivial": set(), "violations": [], "disagreements": [], "distribution": {}}
-        from xml.sax.saxutils import escape
-        s = rec["input"]
-        bx = oracle_batch([(310, escape(s))])[0]
-        iv = WebVTTWriter()._encode_illegal_characters(s)
-        bv = oracle_batch([(314, iv)])[0]
-        bad = bx == [] or norm_tree(bx[0]) != ([] if s == "" else [[0, s]]) or bv != s or "-->" in iv
-        return bad, {"xml": bx, "vtt": [iv, bv]}
     return False, "unknown replay kind"
